@@ -532,6 +532,12 @@ def run_file(ctx, spec, idx):
         ('contradictory', ['detect', '--per-constraint', '--no-per-constraint', data, 'pert.tdda', 'bad_det.csv'], ['bad_det.csv']),
         ('contradictory', ['detect', '--no-output-fields', data, 'pert.tdda', 'bad_det.parquet', '--output-fields', spec['cols'][0]['name']], ['bad_det.parquet']),
     ]
+    for known in (cons_name, 'pert.tdda'):
+        # a constraints name that is NOT a file although a file with a longer name is: the existing name less its extension
+        stem = known[:-len('.tdda')] if known.endswith('.tdda') else None
+        if stem and os.path.exists(os.path.join(d, known)) and not os.path.exists(os.path.join(d, stem)):
+            bads.append(('missing-constraints', ['verify', data, stem], []))
+            bads.append(('missing-constraints', ['detect', data, stem, 'bad_det.csv'], ['bad_det.csv']))
     for kind, args, outs in rng.sample(bads, 4):
         case = case_of(args, 'bad', [('bad=' + kind,)])
         for f in outs:
